@@ -131,6 +131,7 @@ def model(cfg, ctx, group, args):
             exp['to_bits'] = p
             exp['from_bits'] = a
             exp['as_bits'] = p
+            exp['as_bits_mut'] = a
         else:
             exp['cast_signed'] = cfg.S().val(p)
         cls.add('reinterpretation with top bit set' if p >> (cfg.bits - 1) else 'plain:reinterpretation')
